@@ -27,9 +27,13 @@ type htmlRenderer struct{}
 
 // Render renders HTML nodes to the given writer.
 func (r *htmlRenderer) Render(ctx context.Context, w io.Writer, nodes []*html.Node) error {
+	ew := &errWriter{w: w}
 	for _, node := range nodes {
-		if err := renderNode(w, node, 0); err != nil {
+		if err := renderNode(ew, node, 0); err != nil {
 			return err
+		}
+		if ew.err != nil {
+			return ew.err
 		}
 	}
 	return nil
